@@ -129,6 +129,32 @@ def run_history(ops, allow_inflight=True):
                 for v in pcache.parser_cache.values():
                     for item in v.values():
                         item.last_used -= 10000
+            elif kind == 'parse_restarted':
+                # a *real* restart: the same call in a fresh interpreter that shares only the cache directory
+                import subprocess
+                import sys as _sys
+                from ..common import REPO
+                f = w.files[op[1]]
+                v = VERS[op[2]]
+                d = w.dirs[op[3]]
+                mode = op[4]
+                prog = ('import sys; sys.path.insert(0, %r); sys.dont_write_bytecode = True; import parso; '
+                        'g = parso.load_grammar(version=%r); m = g.parse(path=%r, cache=%r, diff_cache=%r, cache_path=%r); '
+                        'sys.stdout.buffer.write(m.dump(indent=None).encode("utf-8", "backslashreplace"))'
+                        % (REPO, v, f, mode.startswith('cache'), 'diff' in mode, d))
+                r = subprocess.run([_sys.executable, '-c', prog], capture_output=True, timeout=120)
+                w.restamp()
+                info['restarts'] = info.get('restarts', 0) + 1
+                if r.returncode != 0:
+                    return ('restarted-parse-raises', 'step %d %r: %s' % (step, op, r.stderr.decode('utf-8', 'replace')[-300:])), info
+                exp = grammar(v).parse(w.model[f]).dump(indent=None).encode('utf-8', 'backslashreplace')
+                if mode.startswith('cache') or 'diff' in mode:
+                    cached.add(f)
+                if f in dirty:
+                    info['wrote_after_cached_then_parsed'] = True
+                    dirty.discard(f)
+                if r.stdout != exp:
+                    return ('stale-or-foreign-tree+in-restarted-process', 'step %d %r: got %s' % (step, op, short(r.stdout.decode('utf-8', 'replace'), 100))), info
             elif kind in ('parse', 'parse_inflight'):
                 f = w.files[op[1]]
                 v = VERS[op[2]]
@@ -181,12 +207,16 @@ class C16(Prop):
             're-stamped with the next tick. Oracle (dict-of-files model): every parse returns a tree equal (own comparator) to a fresh '
             'parse of the content the model says was on disk at read time. Non-trivial: history with a write after a cached parse of the '
             'same file followed by another parse of it. Distinct by operation sequence.')
-    assumptions = ['mtime granularity (two writes in one tick) is outside the statement', 'real restarts are modelled by clearing parser_cache (thorough tier adds subprocess restarts)']
+    assumptions = ['mtime granularity (two writes in one tick) is outside the statement', 'quick tier models restarts by clearing parser_cache; the thorough tier adds real restarts (the same parse in a fresh interpreter sharing the cache directory)']
     budgets = {'quick': 6000, 'thorough': 150000}
     shrink_fields = ('ops',)
 
     def strategy(self, tier):
-        return st.fixed_dictionaries({'ops': st.lists(_op, min_size=3, max_size=16).map(lambda l: [list(o) for o in l])})
+        op = _op
+        if tier == 'thorough':
+            # thorough only (an interpreter start + grammar generation per operation): real process restarts
+            op = st.one_of(*([_op] * 40 + [st.tuples(st.just('parse_restarted'), _F, _V, _D, st.sampled_from(MODES))]))
+        return st.fixed_dictionaries({'ops': st.lists(op, min_size=3, max_size=16).map(lambda l: [list(o) for o in l])})
 
     def check(self, case):
         ops = [tuple(o) for o in case['ops']]
@@ -195,6 +225,8 @@ class C16(Prop):
         if info['inflight']:
             classes.append('write-during-parse')
         kinds = {o[0] for o in ops}
+        if info.get('restarts'):
+            classes.append('real-restart')
         for k in ('drop', 'rmdir', 'evict', 'touch'):
             if k in kinds:
                 classes.append(k)
